@@ -2,7 +2,7 @@ from typing import Any, Protocol
 
 import httpx
 
-from .auth.base import BaseAuth
+from .auth.base import BaseAuth, merge_headers
 from .exceptions import ClientError, HTTPError, ServerError
 
 
@@ -130,11 +130,11 @@ class HttpxTransport:
 
         # 1. Apply transport-level default headers
         if self._default_headers:
-            prepared_headers.update(self._default_headers)
+            merge_headers(prepared_headers, self._default_headers)
 
         # 2. Merge headers passed specifically for this request (overriding transport defaults)
         if "headers" in current_request_kwargs and isinstance(current_request_kwargs["headers"], dict):
-            prepared_headers.update(current_request_kwargs["headers"])
+            merge_headers(prepared_headers, current_request_kwargs["headers"])
 
         # 3. Apply authentication plugin or bearer token (which can further modify headers)
         # We pass a temporary request_args dict containing only the headers to the auth plugin,
@@ -155,7 +155,7 @@ class HttpxTransport:
                 pass  # Or raise an error, or log a warning.
         elif self._bearer_token is not None:
             # If no auth plugin, but bearer token is present, add/overwrite Authorization header.
-            prepared_headers["Authorization"] = f"Bearer {self._bearer_token}"
+            merge_headers(prepared_headers, {"Authorization": f"Bearer {self._bearer_token}"})
 
         return prepared_headers
 
